@@ -1,0 +1,99 @@
+//go:build verif
+// +build verif
+
+package mailbox
+
+import (
+	"context"
+	"net"
+
+	"github.com/btcsuite/btcd/btcec/v2"
+	"github.com/lightninglabs/lightning-node-connect/hashmailrpc"
+)
+
+// This file is only compiled with the `verif` build tag. It exposes read-only
+// accessors and constructors so that an external verification harness can
+// drive the package against an in-memory relay. It changes no behaviour other
+// than lowering the scrypt cost exactly as crypto_rpctest.go does.
+
+func init() {
+	scryptN = 16
+	scryptR = 8
+	scryptP = 1
+}
+
+// VerifMachineState is a snapshot of a Machine's negotiated state.
+type VerifMachineState struct {
+	Version      byte
+	RemoteStatic *btcec.PublicKey
+	SendKey      [32]byte
+	SendNonce    uint64
+	RecvKey      [32]byte
+	RecvNonce    uint64
+}
+
+// VerifState returns a snapshot of the negotiated state of the Machine.
+func (b *Machine) VerifState() VerifMachineState {
+	return VerifMachineState{
+		Version:      b.version,
+		RemoteStatic: b.remoteStatic,
+		SendKey:      b.sendCipher.secretKey,
+		SendNonce:    b.sendCipher.nonce,
+		RecvKey:      b.recvCipher.secretKey,
+		RecvNonce:    b.recvCipher.nonce,
+	}
+}
+
+// VerifNewNoiseConn wraps an established Machine and transport in a NoiseConn.
+func VerifNewNoiseConn(conn net.Conn, noise *Machine) *NoiseConn {
+	return &NoiseConn{conn: conn, noise: noise}
+}
+
+// VerifStripJSONWrapper exposes stripJSONWrapper.
+func VerifStripJSONWrapper(wrapped string) (string, error) {
+	return stripJSONWrapper(wrapped)
+}
+
+// VerifUnmarshalCipherBox decodes an unwrapped websocket JSON message the way
+// the websocket transport does.
+func VerifUnmarshalCipherBox(unwrapped string) ([]byte, error) {
+	mailboxMsg := &hashmailrpc.CipherBox{}
+	err := defaultMarshaler.Unmarshal([]byte(unwrapped), mailboxMsg)
+	if err != nil {
+		return nil, err
+	}
+
+	return mailboxMsg.Msg, nil
+}
+
+// VerifWithHashMailClient sets the hashmail client of a Client directly.
+func VerifWithHashMailClient(c hashmailrpc.HashMailClient) ClientOption {
+	return func(client *Client) {
+		client.grpcClient = c
+	}
+}
+
+// VerifNewServer creates a Server that talks to the given hashmail client.
+func VerifNewServer(serverHost string, connData *ConnData,
+	onNewStatus func(status ServerStatus),
+	client hashmailrpc.HashMailClient) (*Server, error) {
+
+	sid, err := connData.SID()
+	if err != nil {
+		return nil, err
+	}
+
+	s := &Server{
+		serverHost:  serverHost,
+		client:      client,
+		connData:    connData,
+		sid:         sid,
+		onNewStatus: onNewStatus,
+		log:         log.WithPrefix("(server)"),
+		quit:        make(chan struct{}),
+	}
+
+	s.ctx, s.cancel = context.WithCancel(context.Background())
+
+	return s, nil
+}
